@@ -330,6 +330,26 @@ func (c *Ctx) strmStep(ins ssa.Instruction, fr *strmFrame, st *strmState, depth 
 		case "Reset":
 			st.B = nil
 		case "Bytes", "Len", "Cap":
+		case "WriteTo":
+			// drains the buffer into the writer and leaves it empty; the hash never reports a short write
+			w := cc.Args[1]
+			for d := 0; d < 3; d++ {
+				switch x := w.(type) {
+				case *ssa.ChangeInterface:
+					w = x.X
+					continue
+				case *ssa.MakeInterface:
+					w = x.X
+					continue
+				}
+				break
+			}
+			if recvField(w, fr) == "state" {
+				st.S = append(st.S, st.B...)
+				st.B = nil
+			} else {
+				st.undec = "the pending buffer is drained into something other than the hash state at " + c.P.Pos(ins.Pos())
+			}
 		default:
 			st.undec = "buffer method " + f.Name() + " at " + c.P.Pos(ins.Pos())
 		}
